@@ -27,11 +27,14 @@ var checks = map[string]checkFn{
 	"C11": hand.RunC11,
 	"C12": hand.RunC12,
 	"C13": hand.RunC13,
+	"C14": hand.RunC14,
+	"C15": hand.RunC15,
 }
 
 var replayers = map[string]func(v *explore.Violation) (bool, string){
-	"cards-c03": cards.ReplayC03,
-	"hand":      hand.ReplayViolation,
+	"cards-c03":    cards.ReplayC03,
+	"hand":         hand.ReplayViolation,
+	"hand-shuffle": hand.ReplayShuffle,
 }
 
 func main() {
